@@ -20,7 +20,7 @@ Proof.
     + apply N.compare_antisym.
     + apply Z.compare_antisym.
     + apply (l_sym _ lawful_bytes).
-  - intros [x|x|x|x] [y|y|y|y] [z|z|z|z]; simpl; try congruence.
+  - intros [x|x|x|x] [y|y|y|y] [z|z|z|z]; simpl; try congruence; try (vm_compute; congruence).
     + apply (l_trans _ lawful_bool).
     + apply (l_trans _ lawful_N).
     + apply (l_trans _ lawful_Z).
@@ -38,7 +38,7 @@ Definition fm_key (f : fmatch) : bytes * option vmatch := (f_name f, f_value f).
 Lemma fm_cmp_is a b :
   fm_cmp a b = then_with (bool_cmp (is_some (f_value a)) (is_some (f_value b)))
                  (then_with (bytes_cmp (fst (fm_key a)) (fst (fm_key b))) (opt_cmp vm_cmp (snd (fm_key a)) (snd (fm_key b)))).
-Proof. unfold fm_cmp. destruct (f_value a), (f_value b); reflexivity. Qed.
+Proof. unfold fm_cmp, fm_key. simpl. destruct (f_value a), (f_value b); reflexivity. Qed.
 
 Lemma lawful_ext {A} (c c' : A -> A -> comparison) : (forall a b, c a b = c' a b) -> lawful c' -> lawful c.
 Proof.
@@ -121,7 +121,7 @@ Qed.
 Lemma fields_peq_refl l : fields_peq l l = true <-> forall f, In f l -> fm_peq f f = true.
 Proof.
   induction l as [|f l IH]; simpl.
-  - split; auto. intros _ f [].
+  - split; auto; intros _ g [].
   - rewrite andb_true_iff, IH. split.
     + intros [H1 H2] g [<-|Hg]; auto.
     + intros H. split; auto.
@@ -133,20 +133,20 @@ Definition has_debug_lit (d : ddir) : bool :=
 (** with the Debug arm in `ValueMatch::eq` the assertion can never fire ... *)
 Lemma ord_eq_consistent : gen_valuematch_eq_debug = true -> forall a b, ord_assert_fails a b = false.
 Proof.
-  intros G a b. unfold ord_assert_fails. destruct (is_eq (cmp_d a b)) eqn:E; auto. simpl. apply negb_false_iff.
+  intros G a b. apply seal in G. unfold ord_assert_fails. destruct (is_eq (cmp_d a b)) eqn:E; auto. simpl. apply negb_false_iff.
   assert (K : key_d a = key_d b) by (apply cmp_d_eq_key; destruct (cmp_d a b); simpl in E; congruence).
   unfold key_d in K. inversion K as [[K1 K2 K3]]. rewrite K1, K2, K3.
   assert (R1 : obytes_eqb (d_target b) (d_target b) = true) by (apply obytes_eqb_eq; reflexivity).
   assert (R2 : obytes_eqb (d_span b) (d_span b) = true) by (apply obytes_eqb_eq; reflexivity).
   rewrite R1, R2. simpl. apply fields_peq_refl. intros f _. apply fm_peq_refl_iff.
-  destruct (f_value f) as [[| | |]|]; auto.
+  destruct (f_value f) as [[| | |]|]; try exact I; exact (unseal _ G).
 Qed.
 
 (** ... and without it, it fires exactly on a duplicate key that carries a Debug literal *)
 Lemma ord_assert_fails_iff : gen_valuematch_eq_debug = false -> forall a b,
   ord_assert_fails a b = true <-> (key_d a = key_d b /\ has_debug_lit b = true).
 Proof.
-  intros G a b. unfold ord_assert_fails. rewrite andb_true_iff, negb_true_iff. split.
+  intros G a b. apply seal in G. unfold ord_assert_fails. rewrite andb_true_iff, negb_true_iff. split.
   - intros [E F]. assert (K : key_d a = key_d b) by (apply cmp_d_eq_key; destruct (cmp_d a b); simpl in E; congruence).
     split; auto. unfold key_d in K. inversion K as [[K1 K2 K3]]. rewrite K1, K2, K3 in F.
     assert (R1 : obytes_eqb (d_target b) (d_target b) = true) by (apply obytes_eqb_eq; reflexivity).
@@ -155,7 +155,7 @@ Proof.
     destruct (existsb _ (d_fields b)) eqn:X; auto. exfalso.
     assert (fields_peq (d_fields b) (d_fields b) = true); [|congruence].
     apply fields_peq_refl. intros f Hf. apply fm_peq_refl_iff.
-    destruct (f_value f) as [[| | |p]|] eqn:V; auto. exfalso.
+    destruct (f_value f) as [[| | |p]|] eqn:V; try exact I. exfalso.
     assert (existsb (fun f => match f_value f with Some (VDebugLit _) => true | _ => false end) (d_fields b) = true); [|congruence].
     apply existsb_exists. exists f. split; auto. now rewrite V.
   - intros [K D]. split.
@@ -165,7 +165,7 @@ Proof.
       destruct (fields_peq (d_fields b) (d_fields b)) eqn:X; auto. exfalso.
       unfold has_debug_lit in D. apply existsb_exists in D. destruct D as (f & Hf & V).
       pose proof (proj1 (fields_peq_refl _) X f Hf) as P. apply fm_peq_refl_iff in P.
-      destruct (f_value f) as [[| | |p]|]; try discriminate. congruence.
+      destruct (f_value f) as [[| | |p]|]; try discriminate V. apply unseal in G. congruence.
 Qed.
 
 (** * the level maximum bounds every directive's level (both shapes of `add`) *)
